@@ -18,18 +18,25 @@ def regen(ctx):
         # scratch tree: build against its constants, restore afterwards (see run)
         pass
     vf.write_if_changed(GEN, text)
+    # BM25 parameters for the harness' tfScore samples (the harness cannot read the function-local k, b)
+    import re
+    env = SPEC["harness"].setdefault("env", {})
+    for nm, var in (("c_bm25_k", "VERIF_BM25_K"), ("c_bm25_b", "VERIF_BM25_B")):
+        m = re.search(r"Definition %s : Q := \(\(?(-?\d+)\)? # (\d+)\)" % nm, text)
+        if m:
+            env[var] = repr(int(m.group(1)) / int(m.group(2)))
     return True, text
 
 
 SPEC = dict(
     level="proof",
     harness=dict(pkg_dir="index", run="TestVerifC29$", files=["index/zz_verif_c29_test.go"], n_quick=110, n_thorough=2500),
-    runner=dict(imports=["From Coq Require Import QArith.", "From ZV Require Import Lib.Base Model.Score."], case_type="c29case",
-                mismatch_fn="c29_mismatches", shard=120),
+    runner=dict(imports=["From Coq Require Import QArith.", "From ZV Require Import Lib.Base Model.Score Model.ScoreBM25."], case_type="c29bcase",
+                mismatch_fn="c29b_mismatches", shard=120),
     rule="1-3 in-memory shards (distinct repo ranks incl. 0 and 65535) x 1-6 documents (4 extensions/languages, words with "
          "word/partial boundaries, symbols covering/overlapping words with 12 ctags kinds, filenames containing the pattern) x 9 query "
          "shapes (substring, case, or, and, boosted atoms with weights 2/0.5/1.5/3/1+1e-10, file:, sym:) x line/chunk mode x default/BM25; "
-         "every search is run 5x without and 1x with DebugScore. Correspondence (default scorer): candidate features re-derived "
+         "every search is run 5x without and 1x with DebugScore; 3 tfScore(k,b,L,f) samples per case (exact L, relative 2^-40).  Correspondence (default scorer): candidate features re-derived "
          "independently from the corpus, model computes all scores and both orders; order compared exactly, match scores within "
          "2^-30, file scores within 2^-12. non-trivial = >= 2 files and a file with >= 2 matches.",
     trusted_base=["correspondence harness harness/overlay/index/zz_verif_c29_test.go (corpus generator, feature re-derivation, Go oracle)",
